@@ -43,7 +43,7 @@ G = [
     ("PostgreSQLQueryBuilder.returning", set(), "QueryException", {"_returns"}, {"nested": True, "label": "aggregate function"}),
     ("PostgreSQLQueryBuilder._validate_returning_term", {"_insert_table", "_update_table", "_delete_from"}, "QueryException", set(), {"label": "non-DML statement", "no_loop": True}),
     ("PostgreSQLQueryBuilder._validate_returning_term", set(), "QueryException", set(), {"nested": True, "label": "foreign table", "second": True}),
-    ("PostgreSQLQueryBuilder._return_field_str", set(), "QueryException", {"_returns", "_return_star"}, {"else_branch": True, "label": "non-DML statement (str term)"}),
+    ("PostgreSQLQueryBuilder._return_field_str", {"_insert_table", "_update_table", "_delete_from"}, "QueryException", {"_returns", "_return_star"}, {"label": "non-DML statement (str term)"}),
     ("Joiner.on", set(), "JoinException", set(), {"label": "criterion is None"}),
     ("Joiner.on_field", set(), "JoinException", set(), {"label": "no fields"}),
     ("Joiner.using", set(), "JoinException", set(), {"label": "no fields"}),
@@ -70,6 +70,29 @@ def collect_guards(f: FuncInfo):
     """every `raise` with its guarding tests: (exc, attrs read by the enclosing tests, loops around it, in_else, node, top-level index)"""
     selfn = f.params[0] if f.params else "self"
     out = []
+    # what a local stands for: the receiver's attributes read by the expression it was bound to
+    # (`fields = bool(self._on_conflict_fields)`, `if (table := self._insert_table or self._update_table)`)
+    local_reads: dict[str, set] = {}
+    for _ in range(3):
+        for n in ast.walk(f.node):
+            tgt = val = None
+            if isinstance(n, ast.Assign) and len(n.targets) == 1 and isinstance(n.targets[0], ast.Name):
+                tgt, val = n.targets[0].id, n.value
+            elif isinstance(n, ast.NamedExpr) and isinstance(n.target, ast.Name):
+                tgt, val = n.target.id, n.value
+            if tgt is not None:
+                r = self_reads(val, selfn)
+                for x in ast.walk(val):
+                    if isinstance(x, ast.Name) and x.id in local_reads:
+                        r |= local_reads[x.id]
+                local_reads[tgt] = local_reads.get(tgt, set()) | r
+
+    def reads_of(t):
+        r = self_reads(t, selfn)
+        for x in ast.walk(t):
+            if isinstance(x, ast.Name) and isinstance(x.ctx, ast.Load) and x.id in local_reads:
+                r |= local_reads[x.id]
+        return r
 
     def rec(stmts, tests, loops, top_idx, in_else, in_handler):
         for i, s in enumerate(stmts):
@@ -78,9 +101,9 @@ def collect_guards(f: FuncInfo):
                 e = s.exc.func if isinstance(s.exc, ast.Call) else s.exc
                 attrs = set()
                 for t in tests:
-                    attrs |= self_reads(t, selfn)
+                    attrs |= reads_of(t)
                 out.append({"exc": ast.unparse(e).split(".")[-1], "attrs": attrs, "loops": list(loops), "else": in_else, "node": s, "top": ti,
-                            "depth": len(tests), "handler": in_handler})
+                            "depth": len(tests), "handler": in_handler, "test_attrs": [reads_of(t) for t in tests]})
             elif isinstance(s, ast.If):
                 rec(s.body, tests + [s.test], loops, ti, False, in_handler)
                 rec(s.orelse, tests + [s.test], loops, ti, True, in_handler)
@@ -127,6 +150,44 @@ def _anchor(program: Program, qual: str) -> FuncInfo:
         return inlined(program, f, c)
     return inlined(program, program.func(qual))
 
+
+
+def _type_witness_flag(program, cls, flag: str, attr: str, name: str, selfn_unused, defines) -> bool:
+    """every store to self.<attr> outside __init__ in the class hierarchy stands next to a store
+    `self.<flag> = ... isinstance(<the stored value>, (K...)) ...` (same block) with every K defining <name>"""
+    found = 0
+    for k in [k_ for k_ in program.all_classes() if k_ is cls or k_.is_subclass_of(cls) or cls.is_subclass_of(k_)]:
+        for g in k.methods.values():
+            if not g.params or g.name == "__init__":
+                continue
+            sn = g.params[0]
+            for blk in ast.walk(g.node):
+                for fld in ("body", "orelse", "finalbody"):
+                    stmts = getattr(blk, fld, None)
+                    if not isinstance(stmts, list):
+                        continue
+                    for i, st in enumerate(stmts):
+                        if not (isinstance(st, ast.Assign) and len(st.targets) == 1 and isinstance(st.targets[0], ast.Attribute) and st.targets[0].attr == attr
+                                and isinstance(st.targets[0].value, ast.Name) and st.targets[0].value.id == sn):
+                            continue
+                        if isinstance(st.value, ast.Call) and isinstance(st.value.func, ast.Attribute) and ast.unparse(st.value.func.value) == f"{sn}.{attr}":
+                            continue       # `self.item = self.item.<method>(...)`: the same kind of object again
+                        stored = ast.unparse(st.value)
+                        ok = False
+                        for other in stmts:
+                            if (isinstance(other, ast.Assign) and len(other.targets) == 1 and isinstance(other.targets[0], ast.Attribute) and other.targets[0].attr == flag
+                                    and isinstance(other.targets[0].value, ast.Name) and other.targets[0].value.id == sn):
+                                for c in ast.walk(other.value):
+                                    if (isinstance(c, ast.Call) and isinstance(c.func, ast.Name) and c.func.id == "isinstance" and len(c.args) == 2
+                                            and ast.unparse(c.args[0]) in (stored, f"{sn}.{attr}")):
+                                        spec = c.args[1]
+                                        ks = [program.resolve_expr_class(g.module, e, None) for e in (spec.elts if isinstance(spec, ast.Tuple) else [spec])]
+                                        if ks and all(ks) and all(defines(kk, name) for kk in ks):
+                                            ok = True
+                        if not ok:
+                            return False
+                        found += 1
+    return found > 0
 
 def check(program: Program, run: Run) -> None:
     run.explanation = (
@@ -196,7 +257,8 @@ def check(program: Program, run: Run) -> None:
                 ok, why = False, f"the check is not inside the loop over {opt['in_loop_over']}: only some operands are checked"
         elif g["loops"] and (opt.get("no_loop") or not opt.get("nested")):
             ok, why = False, f"the test sits inside `for ... in {g['loops'][0]}`: it does not run when that iteration is empty, so it does not dominate what it protects"
-        if ok and protects and not any(opt.get(k) for k in ("nested", "else_branch", "in_handler", "second", "in_loop_over", "tail")) and g["depth"] > 1:
+        if ok and protects and not any(opt.get(k) for k in ("nested", "else_branch", "in_handler", "second", "in_loop_over", "tail")) and g["depth"] > 1 \
+                and not (attrs and all(ta and ta <= attrs for ta in g.get("test_attrs", [set()]))):      # (nested tests that all read the guarded attributes are one guard)
             ok, why = False, (f"the guard is nested under another condition, so the paths that write {sorted(protects)} without satisfying that condition are not protected")
         if ok and protects and not opt.get("nested"):
             fw = first_write_index(f, protects)
@@ -365,6 +427,26 @@ def check(program: Program, run: Run) -> None:
 
     # ---- R4
     _manufactured_reads(program, run)
+
+    # ---- R7: an argument reaches the validating helper unless the statement's own state says none is needed (`*` already
+    # returned); a guard that decides from a projection of the argument (same name, same alias ...) that it need not be
+    # validated lets the invalid one through whenever the projection coincides
+    from ..families import early_drop_guards
+    nv = 0
+    for f7, st7, guards7, later7, read7 in early_drop_guards(program):
+        vals = [a for k_, a in later7 if k_ == "val"]
+        if not vals:
+            continue
+        nv += 1
+        ok7 = not read7 or "table" in read7
+        run.ob("C14/R7 no argument skips its validation on the strength of a projection", f"{f7.qualname}:{st7.lineno}", ok7,
+               detail="; ".join(ast.unparse(g)[:60] for g in guards7), where=f7.loc(st7))
+        if not ok7:
+            run.finding(f"C14/validation-bypassed:{f7.qualname}:{vals[0]}",
+                        f"{f7.qualname} returns before `{vals[0]}` is called when `{ast.unparse(guards7[-1])[:80]}` holds: the test compares {sorted(read7)} of the argument only, "
+                        "so an argument that would be rejected (a column of a table that is not part of the statement) is silently dropped instead of raising", where=f7.loc(st7), rule="R7")
+    run.analysed = dict(getattr(run, "analysed", {}) or {})
+    run.analysed["early_returns_before_validation"] = nv
 
     # ---- R6
     from ..families import one_shot_reuse_sites
@@ -552,6 +634,14 @@ def _manufactured_reads(program: Program, run: Run) -> None:
                         for c in ast.walk(t):
                             if isinstance(c, ast.Call) and isinstance(c.func, ast.Name) and c.func.id == "isinstance" and c.args and ast.unparse(c.args[0]) == ast.unparse(n.value):
                                 narrowed = True
+                        # a flag kept as a type witness of the attribute (`self.item = v; self.flag = self.flag and
+                        # isinstance(v, (K1, K2))`): under `self.flag` the attribute holds a K1/K2, which define the name
+                        a_self = from_attr(n.value)
+                        if a_self and f.cls is not None and not narrowed:
+                            for c in ([t] + (list(t.values) if isinstance(t, ast.BoolOp) and isinstance(t.op, ast.And) else [])):
+                                fl = from_attr(c)
+                                if fl and _type_witness_flag(program, f.cls, fl, a_self, n.attr, selfn, defines):
+                                    narrowed = True
                     x = par
                 for D in sorted(Ds, key=lambda d: d.qualname):
                     ok = narrowed or defines(D, n.attr)
